@@ -60,7 +60,7 @@ def run(ctx):
     corr.reader(ctx, ctx.n(1500, 15000), project=lambda o: [o[0].rsplit('| ', 1)[-1].split()[0]] if o else o)
     corr.direct(ctx, 'c03', [[c[0], c[1], c[2]] for c in cs], describe=lambda c: dict(form=c[0], payload=c[1], sizes=(c[2] or [])[:8]))
     ctx.partial = [dict(theorem='scanner_total / parser_total / composer_total / error_marks_inside', missing='proved only for forward, the UTF-8 decoder, anchor scanning and two parser states; the rest is decided by correspondence of outcome classes and the direct watchdog run')]
-    ctx.refuted = [dict(theorem='C03_escape_total_refuted', witness='"\\UFFFFFFFF"')]
+    ctx.refuted = [dict(theorem='C03_scanner_total_refuted', witness='%YAML 1.<4301 digits> -> ValueError (known finding F-yaml-directive-4300-digits)')]
     return ctx.finish(assumptions=['nesting below the interpreter recursion limit', 'LibYAML is observed, not modelled'])
 
 def replay(ctx, path):
